@@ -245,7 +245,7 @@ def check_raster(rep, spec):
         idx = np.argwhere(wrong)
         worst = idx[np.abs(g[wrong]).argmax()]
         i, j, k = map(int, worst)
-        c = [lo[0] + (i + 0.5) * res3[0], lo[1] + (j + 0.5) * res3[1], lo[2] + (k + 0.5) * res3[2]]
+        c = [float(lo[0] + (i + 0.5) * res3[0]), float(lo[1] + (j + 0.5) * res3[1]), float(lo[2] + (k + 0.5) * res3[2])]
         rep(carrier, "raster-voxel-lit-iff-inside", spec,
             f"{int(wrong.sum())} of {int(decided.sum())} voxels wrong ({int((wrong & lit).sum())} lit outside, {int((wrong & ~lit).sum())} dark inside); "
             f"voxel (x,y,z)=({i},{j},{k}) centre {[round(v, 4) for v in c]} is {'lit' if lit[i, j, k] else 'dark'}",
